@@ -214,9 +214,25 @@ def mu_m1_m2(chk):
             for j in range(4):
                 ex_.store(st_, Ptr(mp_.rid, cells['ZNr%d%d' % (i, j)]), llir.DOUBLE, ex_.leaf(st_, 'uf:ZNr%d%d' % (i, j), par))
                 ex_.store(st_, Ptr(mp_.rid, cells['ZNi%d%d' % (i, j)]), llir.DOUBLE, ex_.leaf(st_, 'uf:ZNi%d%d' % (i, j), par))
+        for nm in ('UM', 'UP'):
+            for i in range(2):
+                for j in range(2):
+                    for c_ in 'ri':
+                        if cells.get('%s%s%d%d' % (nm, c_, i, j)) is not None:
+                            ex_.store(st_, Ptr(mp_.rid, cells['%s%s%d%d' % (nm, c_, i, j)]), llir.DOUBLE,
+                                      ex_.leaf(st_, 'uf:%s%s%d%d' % (nm, c_, i, j), par[1:]))
 
     def spectrum(ex_, st_, d, args_):
         if 'calculate_MChi()' in d or 'calculate_MCha()' in d or 'calculate_DRbar_masses()' in d:
+            if 'calculate_MChi()' in d and 'UMr00' in cells:
+                # first spectrum call after the parameter update of an iteration: record what the update was computed from
+                mp_ = cells['mp']
+
+                def rd(k):
+                    return zr(ex_.load(st_, Ptr(mp_.rid, cells[k]), llir.DOUBLE))
+                snap = {k: rd(k) for k in cells if k != 'mp' and cells[k] is not None and not k.startswith('P')}
+                binos_ = [e[1]['idx'] for e in st_.events if e[0] == 'bino']
+                st_.event('update', snap=snap, idx_pole=binos_[0] if binos_ else None, idx_dr=binos_[-1] if binos_ else None)
             write_spectrum(ex_, st_)
             return None
         return NotImplemented
@@ -254,6 +270,12 @@ def mu_m1_m2(chk):
         for j in range(4):
             spec['ZNr%d%d' % (i, j)] = ('vx_ZN_re', [i, j])
             spec['ZNi%d%d' % (i, j)] = ('vx_ZN_im', [i, j])
+    for i in range(2):
+        for j in range(2):
+            spec['UMr%d%d' % (i, j)] = ('vx_UM_re', [i, j])
+            spec['UMi%d%d' % (i, j)] = ('vx_UM_im', [i, j])
+            spec['UPr%d%d' % (i, j)] = ('vx_UP_re', [i, j])
+            spec['UPi%d%d' % (i, j)] = ('vx_UP_im', [i, j])
     st, V = probe(ex, st, mp, spec)
     for k, v in V.items():
         cells[k] = find_cell(st, mp, v)
@@ -269,6 +291,7 @@ def mu_m1_m2(chk):
     st.retval = None
     goal = z3.Real('precision_goal')
     jobs = []
+    seen_updates = set()
     ex.max_paths = 20000
     for maxit in range(0, (1 if chk.tier == 'quick' else MAXIT) + 1):
         import time
@@ -290,6 +313,87 @@ def mu_m1_m2(chk):
             tag = 'S3:maxit%d#%d' % (maxit, pi)
             if p.outcome[0] != 'ret':
                 continue
+            ups = [e[1] for e in p.events if e[0] == 'update' and e[1]['idx_pole'] is not None]
+            if ups:
+                u0 = ups[0]
+                sn = u0['snap']
+
+                def selk(vals, idx):
+                    e_ = vals[3]
+                    for k_ in (2, 1, 0):
+                        e_ = z3.If(idx == k_, vals[k_], e_)
+                    return e_
+                pch = [zr(V['PCha%d' % k_]) for k_ in range(2)]
+                # X = Re(U^T diag(MCha_pole) V): M2 = X(0,0), mu = X(1,1)
+                def xel(a, b):
+                    return sum(pch[k_] * (sn['UMr%d%d' % (k_, a)] * sn['UPr%d%d' % (k_, b)] - sn['UMi%d%d' % (k_, a)] * sn['UPi%d%d' % (k_, b)])
+                               for k_ in range(2))
+                ukey = (sn['MassWB'].get_id(), sn['Mu'].get_id(), sn['MassB'].get_id())
+                if ukey in seen_updates:
+                    ups = []
+            if ups:
+                # the indices are pinned by the path condition (symbolic-index accesses were resolved by forking): use their values
+                pins = [k__ for k__ in p.pc if z3.is_eq(k__) and any(k__.arg(a_).get_id() in (u0['idx_dr'].get_id(), u0['idx_pole'].get_id())
+                                                                         for a_ in range(2))]
+
+                def pinned(sym):
+                    vals_ = []
+                    for k_ in range(4):
+                        r__, m__ = chk.solve([z3.ULT(sym, 4)] + [c_ for c_ in p.pc if c_.get_id() in pin_ids] + [sym == k_], 5000)
+                        if r__ != 'unsat':
+                            vals_.append(k_)
+                    return vals_
+                pin_ids = set()
+                for c_ in p.pc:
+                    todo_ = [c_]
+                    seen_ = set()
+                    hit_ = False
+                    while todo_ and not hit_:
+                        t_ = todo_.pop()
+                        if t_.get_id() in seen_:
+                            continue
+                        seen_.add(t_.get_id())
+                        if t_.get_id() in (u0['idx_dr'].get_id(), u0['idx_pole'].get_id()):
+                            hit_ = True
+                        todo_.extend(t_.children())
+                    if hit_:
+                        pin_ids.add(c_.get_id())
+                vd_, vp_ = pinned(u0['idx_dr']), pinned(u0['idx_pole'])
+                if len(vd_) == 1 and len(vp_) == 1:
+                    goalchi = [zr(V['PChi%d' % vp_[0]]) if k_ == vd_[0] else sn['MChi%d' % k_] for k_ in range(4)]
+                else:
+                    goalchi = [z3.If(u0['idx_dr'] == k_, selk([zr(V['PChi%d' % q_]) for q_ in range(4)], u0['idx_pole']), sn['MChi%d' % k_])
+                               for k_ in range(4)]
+                y00 = sum(goalchi[k_] * (sn['ZNr%d0' % k_] * sn['ZNr%d0' % k_] - sn['ZNi%d0' % k_] * sn['ZNi%d0' % k_]) for k_ in range(4))
+                wrong = z3.Or(sn['MassWB'] != xel(0, 0), sn['Mu'] != xel(1, 1), sn['MassB'] != y00)
+                ukey = (sn['MassWB'].get_id(), sn['Mu'].get_id(), sn['MassB'].get_id())
+                if ukey in seen_updates:
+                    wrong = None
+                else:
+                    seen_updates.add(ukey)
+            else:
+                wrong = None
+            if wrong is not None:
+                ids_ = {u0['idx_dr'].get_id(), u0['idx_pole'].get_id()}
+
+                def has_idx(e_):
+                    todo_ = [e_]
+                    seen_ = set()
+                    while todo_:
+                        t_ = todo_.pop()
+                        if t_.get_id() in seen_:
+                            continue
+                        seen_.add(t_.get_id())
+                        if t_.get_id() in ids_:
+                            return True
+                        todo_.extend(t_.children())
+                    return False
+                rng = [z3.ULT(u0['idx_dr'], 4), z3.ULT(u0['idx_pole'], 4)] + [k_ for k_ in p.pc if has_idx(k_)]
+                jobs.append({'name': tag + ':update-formula', 'constraints': rng + [wrong], 'family': fam, 'update': True,
+                             'sample': {'obligation': 'convert_Mu_M1_M2, first iteration: M2 = Re(U^T diag(MCha_pole) V)(0,0), mu = Re(...)(1,1), '
+                                        'M1 = Re(N^T diag(MChi_goal) N)(0,0) with MChi_goal the current masses except the bino-like one replaced by '
+                                        'its pole mass - for arbitrary complex mixing matrices (so the on-shell point, signs included, is a fixed '
+                                        'point of the map)'}})
             flags = [e[1]['what'] for e in p.events if e[0] == 'flag']
             if len(flags) != 1:
                 jobs.append({'name': tag, 'constraints': list(p.pc), 'family': fam, 'expect_unsat_structure': True,
@@ -335,7 +439,11 @@ def mu_m1_m2(chk):
     chk.absorb_executor(ex)
     res = chk.prove_many(jobs, timeout_ms=60000)
     for job, (r, m) in zip(jobs, res):
-        if r == 'sat' and job.get('stale'):
+        if r == 'sat' and job.get('update'):
+            chk.violation(job['name'], 'C05:Mu-M1-M2:update-formula', 'convert_Mu_M1_M2 does not set (M2, mu, M1) to the real parts of '
+                          'U^T diag(MCha_pole) V and N^T diag(MChi_goal) N: the on-shell parameters (with their signs) are not a fixed point',
+                          '#!/bin/sh\ncd %s && exec python3-vt -m props.replay_c05 loose\n' % VERIF)
+        elif r == 'sat' and job.get('stale'):
             chk.violation(job['name'], 'C05:Mu-M1-M2:stale-bino-index', 'convert_Mu_M1_M2: the bino-like neutralino is not re-identified after the '
                           'spectrum changed (index from an outdated mixing matrix)', '#!/bin/sh\ncd %s && exec python3-vt -m props.replay_c05 gauginos\n' % VERIF)
         elif r == 'sat':
